@@ -401,6 +401,33 @@ def _warm_region(A, b):
     return z3.Or(*alts) if alts else z3.BoolVal(False)
 
 
+def _guarded(ctx, fn):
+    """run one path under the margin policy.  A path that needs more than the decision bound (the solver keeps
+    iterating) is an unwinding-assertion failure: a model of its path condition becomes a counterexample candidate
+    that the replay judges on the real code.  Infeasible paths under the margin policy are reported, never silent."""
+    from symx.explore import BoundExceeded, PathAbort, Candidate
+    if sum(1 for c in ctx.stats.candidates if c.known is None) >= ctx.max_candidates:
+        raise PathAbort()           # enough counterexamples for this case: stop exploring
+    _STATE["margin"] = True
+    try:
+        fn()
+    except BoundExceeded as e:
+        _STATE["margin"] = False
+        r, m = ctx._check()
+        if r == "sat":
+            ctx.stats.sat += 1
+            ctx.stats.candidates.append(Candidate("terminates_within_decision_bound", ctx.case_from_model(m), None, str(e)))
+        else:
+            ctx.stats.errors.append("decision bound exceeded on a path whose condition is %s" % r)
+        raise PathAbort()
+    except PathAbort:
+        if ctx.pos > 0:
+            ctx.stats.errors.append("path became infeasible under the margin policy after %d decisions" % ctx.pos)
+        raise
+    finally:
+        _STATE["margin"] = False
+
+
 def case_solver(ctx, A, mode):
     n = len(A)
     b = V.real_array("b", (n,))
@@ -410,11 +437,7 @@ def case_solver(ctx, A, mode):
     if mode == "warm":
         reg = _warm_region(A, b)
         known = _known({k: {"warm-start-not-optimal": reg} for k in KKT_KEYS + ("returns_a_solution",)})
-    _STATE["margin"] = True
-    try:
-        hx.run_body(ctx, body_solver, {"b": b}, {"A": A, "mode": mode}, validate_every=1, known=known)
-    finally:
-        _STATE["margin"] = False
+    _guarded(ctx, lambda: hx.run_body(ctx, body_solver, {"b": b}, {"A": A, "mode": mode}, validate_every=1, known=known))
 
 
 # ---------------------------------------------------------------------------------------------------------------
@@ -488,11 +511,8 @@ def case_unconstrained(ctx, A, ranges, force):
     b = V.real_array("b", (n,))
     _box(ctx, b)
     ctx.set_case(A=A, ranges=ranges)
-    _STATE["margin"] = True
-    try:
-        hx.run_body(ctx, body_unconstrained, {"b": b}, {"A": A, "ranges": ranges, "force": force}, validate_every=1)
-    finally:
-        _STATE["margin"] = False
+    _guarded(ctx, lambda: hx.run_body(ctx, body_unconstrained, {"b": b}, {"A": A, "ranges": ranges, "force": force},
+                                      validate_every=1))
 
 
 # ---------------------------------------------------------------------------------------------------------------
@@ -757,23 +777,30 @@ def _check_linear_in_solution(ctx, key, actual, expected, sol, tol=1e-9):
     se, fe = hx._flat(expected)
     if isinstance(actual, hx.Raised) or isinstance(expected, (hx.Raised, str)) or sa != se:
         return ctx.check(key, hx.eq_terms(actual, expected, tol))
-    pairs, sig = [], []
+    pairs, sig, aux, side = [], [], [], []
     for j, e in enumerate(sol):
         if V.is_sym(e):
-            v = z3.Real("sigma_%d" % j)
+            v, a = z3.Real("sigma_%d" % j), z3.Real("abs_sigma_%d" % j)
             pairs.append((V.to_real_term(e), v))
             sig.append(v)
-    bound = V.rval(tol) * (1 + z3.Sum([z3.If(v >= 0, v, -v) for v in sig])) if sig else V.rval(tol)
+            aux.append(a)
+            side += [a >= v, a >= -v]       # a_j >= |sigma_j|: a violation with some such a is one with a = |sigma| (pure LP)
+    bound = V.rval(tol) * (1 + z3.Sum(aux)) if aux else V.rval(tol)
     viol = []
     for x, y in zip(fa, fe):
         d = V.to_real_term(x) - V.to_real_term(y) if (V.is_sym(x) or V.is_sym(y)) else V.rval(float(x) - float(y))
-        d = z3.simplify(z3.substitute(d, *pairs)) if pairs else z3.simplify(d)
+        d = z3.simplify(z3.substitute(d, *pairs), som=True) if pairs else z3.simplify(d)
         viol.append(z3.Or(d > bound, -d > bound))
-    slv = z3.Solver()
-    slv.set("timeout", 10000)
+    slv = z3.SolverFor("QF_LRA")
+    slv.set("timeout", 30000)
+    slv.add(*side)
     slv.add(z3.Or(*viol))
     ctx.stats.queries += 1
-    if str(slv.check()) == "unsat":
+    try:
+        r = str(slv.check())
+    except z3.Z3Exception:
+        r = "unknown"
+    if r == "unsat":
         return ctx.check(key, True)
     return ctx.check(key, hx.eq_terms(actual, expected, tol))
 
@@ -805,8 +832,7 @@ def case_inversion(ctx, **cfg):
         reg = _warm_region(Aref.tolist(), Dref)
         tags = [""] if not cfg["history"] else ["inversion%d_" % (r + 1) for r in range(cfg["history"])]
         known = _known({t + k: {"warm-start-not-optimal": reg} for t in tags for k in KKT_KEYS + ("returns_a_solution",)})
-    _STATE["margin"] = True
-    try:
+    def go():
         actual, expected = hx.run_body(ctx, body_inversion, {"data": data}, cfg, validate_every=1, known=known,
                                        only=_AllBut(("mapped_data", "solves_or_raises")))
         for k in expected:
@@ -816,8 +842,8 @@ def case_inversion(ctx, **cfg):
                 tag = k[:k.index("mapped_data")]
                 sol = actual.get(tag + "solution")
                 _check_linear_in_solution(ctx, k, actual.get(k), expected[k], list(sol) if sol is not None else [])
-    finally:
-        _STATE["margin"] = False
+
+    _guarded(ctx, go)
 
 
 def shim_native():
